@@ -219,7 +219,7 @@ func checkC13(w *Worker) {
 	})
 	// every special scenario whose amounts are exact (harness/specials.go) through the three exports
 	var c13Specials []specialScenario
-	for _, sc := range specialScenarios() {
+	for _, sc := range specialsFor(w.Tier) {
 		if sc.Exact {
 			c13Specials = append(c13Specials, sc)
 		}
